@@ -78,11 +78,17 @@ def staticGroups (key : Labels → Labels) (out : Labels → Labels) (series : L
      | some ls => out ls
      | none => [])
 
+/-- `addToMean` (aggregate/vector_table.go): the count has been raised already; the first value is
+the mean, every later one moves it as in the Prometheus engine -/
+def addToMean (acc : V × V) (v : V) : V × V :=
+  let cnt := add acc.2 one
+  if eq cnt one then (v, cnt) else meanUpd acc v
+
 /-- the engine's accumulators (`scalar_table.go`), folding the members in sample order -/
 def engReduce (op : String) (param : V) (vals : List V) : V :=
   match op with
   | "sum" => vals.foldl add zero
-  | "avg" => div (vals.foldl add zero) (ofInt vals.length)
+  | "avg" => (vals.foldl addToMean (zero, zero)).1
   | _ => aggReduce op param vals
 
 def engAggregate (op : String) (without : Bool) (grouping : List String) (param : Option (OpSem V))
@@ -392,5 +398,45 @@ def engRun (c : Ctx V) (w : Window) (e : Expr V) : QResult V :=
           match s.2 with
           | (_, v) :: _ => some (s.1, v)
           | [] => none)
+
+/-- the expression contains a vector-to-vector operator: the engine emits the series of a join in
+the iteration order of a Go map, so the order of this expression's series is not determined -/
+partial def unstableOrder : Expr V → Bool
+  | .bin _ _ _ l r => (!l.isScalar && !r.isScalar) || unstableOrder l || unstableOrder r
+  | .aggP _ _ _ p e => unstableOrder p || unstableOrder e
+  | .agg _ _ _ e => unstableOrder e
+  | .call _ args => args.any unstableOrder
+  | .neg e => unstableOrder e
+  | .pos e => unstableOrder e
+  | .paren e => unstableOrder e
+  | .stepInv e => unstableOrder e
+  | _ => false
+
+/-- the "one" side of a join has two series with the same match key and no determined order:
+which of them provides the included labels and the value depends on that order -/
+def joinOrderDependent (c : Ctx V) (all : Bool) (bool : Bool) (op : String) (m : Matching) (l r : Expr V) : Bool :=
+  !l.isScalar && !r.isScalar &&
+    (let lowE := if m.card == .oneToMany then l else r
+     (all || unstableOrder lowE) &&
+       match engOp c lowE with
+       | .ok o =>
+         let keys := o.series.map fun ls => (engSignature m (!(dropsName op || bool)) ls).1
+         keys.eraseDups.length != keys.length
+       | .error _ => false)
+
+/-- some join of the query picks among same-key series of an operand whose series order is not
+determined: the engine's result is then one of several (all of them deviations the known
+findings on vector matching describe). With `all`, no operand's series order counts as determined
+(the storage order is permuted, or the series come from remote engines). -/
+partial def joinTie (c : Ctx V) (all : Bool) : Expr V → Bool
+  | .bin op bool m l r => joinTie c all l || joinTie c all r || joinOrderDependent c all bool op m l r
+  | .aggP _ _ _ p e => joinTie c all p || joinTie c all e
+  | .agg _ _ _ e => joinTie c all e
+  | .call _ args => args.any (joinTie c all)
+  | .neg e => joinTie c all e
+  | .pos e => joinTie c all e
+  | .paren e => joinTie c all e
+  | .stepInv e => joinTie c all e
+  | _ => false
 
 end PromqlVerif
